@@ -129,6 +129,10 @@ class LinInterp(OrderInterp):
         return super().unaryop(op, v, node)
 
     def compare_values(self, op: ast.cmpop, a: Any, b: Any, node: ast.AST) -> Any:
+        if isinstance(a, (tuple, list)) and isinstance(b, (tuple, list)) and isinstance(op, (ast.Eq, ast.NotEq)) \
+                and type(a) is type(b):
+            eq = len(a) == len(b) and all(self.concrete_eq(x, y, node) for x, y in zip(a, b))
+            return eq if isinstance(op, ast.Eq) else not eq
         if (isinstance(a, Lin) or isinstance(b, Lin)) and isinstance(
                 op, (ast.Lt, ast.LtE, ast.Gt, ast.GtE, ast.Eq, ast.NotEq)):
             la, lb = self._lin(a), self._lin(b)
